@@ -147,6 +147,12 @@ def creators(chk):
     if ok:
         chk.ok("O11.2", w, "exactly one trio.run, started once per runner run through run_in_executor from manage_payloads", node=n)
     fi._trio_entry_args = [n.args[0]] if n.args else []
+    if n.args and isinstance(n.args[0], ast.Name) and n.args[0].id in fi.params(skip_self=False):
+        # the entry coroutine is handed in:  run_in_executor(None, self._run_blocking, self.<entry>)
+        ts = common.trio_structure(prog, fi.cls)
+        if ts is not None and ts["entry_handed"]:
+            entry_ref = ast.Attribute(value=ast.Name(id="self", ctx=ast.Load()), attr=ts["entry"].name, ctx=ast.Load())
+            fi._trio_entry_args = [ast.copy_location(entry_ref, n)]
     return fi
 
 
